@@ -195,6 +195,50 @@ class G:
         return (k,)
 
 
+def retype_leaf(v):
+    """The same number as another JSON type (True <-> 1 <-> 1.0), or None if v is not such a leaf."""
+    if v is True:
+        return 1
+    if v is False:
+        return 0
+    if isinstance(v, int):
+        if v in (0, 1):
+            return bool(v)
+        return float(v) if abs(v) < 2 ** 50 else None
+    if isinstance(v, float) and v == int(v) and abs(v) < 2 ** 50:
+        return int(v)
+    return None
+
+
+def retype(value, rnd):
+    """A deep copy of value in which one leaf has changed its JSON type only; (copy, path) or (None, None)."""
+    import copy as _c
+    paths = []
+
+    def rec(v, p):
+        if isinstance(v, dict):
+            for k, x in v.items():
+                rec(x, p + (k,))
+        elif isinstance(v, list):
+            for i, x in enumerate(v):
+                rec(x, p + (i,))
+        elif retype_leaf(v) is not None:
+            paths.append(p)
+    rec(value, ())
+    if not paths:
+        return None, None
+    p = rnd.choice(paths)
+    out = _c.deepcopy(value)
+    cur = out
+    for k in p[:-1]:
+        cur = cur[k]
+    if p:
+        cur[p[-1]] = retype_leaf(cur[p[-1]])
+    else:
+        out = retype_leaf(out)
+    return out, p
+
+
 # ------------------------------------------------------------------ execution on Python objects
 def plainify(x):
     """Synced or plain -> plain built-in data (via the object's own _to_base, no load)."""
